@@ -218,6 +218,11 @@ func (_this *RulesEventReceiver) OnUID(value []byte) {
 }
 
 func (_this *RulesEventReceiver) OnTime(value compact_time.Time) {
+	if !value.IsZeroValue() {
+		if err := value.Validate(); err != nil {
+			panic(err)
+		}
+	}
 	_this.context.NotifyNewObject(true)
 	_this.context.CurrentEntry.Rule.OnKeyableObject(&_this.context, DataTypeTime, value)
 	_this.receiver.OnTime(value)
